@@ -44,6 +44,8 @@ struct OpCtx
     int io_fault_fired{IO_NONE};
     uint64_t ceiling{0};  // allocs + io_calls limit (0 = none)
     int dlopen_refused{0};
+    int lib_opens{0};    // open(2) of the simulated input file by the library itself
+    int emfile{0};       // ... refused because the descriptors it leaked before used up the budget
     uint64_t xml_allocs{0};  // allocations made by libxml2 during the call (xmlMemSetup seam; counted, never failed)
     uint64_t xml_bytes{0};
     /** deterministic cost of the call so far: libutap allocations + I/O callbacks + libxml2 memory in 64-byte units */
@@ -81,8 +83,22 @@ uint64_t alloc_total();  // allocations made by the process so far (all, not onl
 // --- SimStore ------------------------------------------------------------------------------
 void store_put(const std::string& name, const std::string& bytes);
 const std::string* store_get(const std::string& name);
-/** schedule used by the next sim:// open (parse_XML_file) */
+/** schedule used by the next open of the simulated input file (parse_XML_file) */
 void set_next_file_sched(const Sched&);
+/** The simulated input file of parse_XML_file has a real path (a file with the right content exists there, so a library
+ *  that opens it by any means reads the right bytes). libxml2's file layer is served by the registered input callbacks
+ *  and an open(2) of that path by the interposed open: both deliver the bytes under the schedule. */
+const std::string& sim_in_path();
+void sim_in_publish(const std::string& bytes);  // store + real file
+void sim_in_retire();                          // unlink; closes a descriptor the library opened and left open
+/** the directory of this orchestrator's simulated files (created by main, removed when it exits) */
+const std::string& sim_dir();
+void sim_dir_create();
+void sim_dir_remove();
+/** Simulated descriptor table: descriptors the library opened itself (through the interposed open) and did not close
+ *  stay allocated; with a budget set, an open beyond it fails with EMFILE (what RLIMIT_NOFILE does to a leaking process). */
+void fd_budget_set(int budget);  // < 0: unlimited
+int fd_leaked();                 // descriptors opened by the library in this process and still open
 /** a descriptor whose read(2) is served from memory under the schedule; for parse_XML_fd */
 int open_sim_fd(const std::string& bytes, const Sched&);
 void close_sim_fd(int fd);
